@@ -363,6 +363,20 @@ int main(int argc, char **argv) {
     if (c.op == O_SUB && chance(50)) { c.b = c.a; if (!c.b.num.empty()) c.b.num[0] += 1; c.ob = std::min<i64>(c.oa, 2); }  // cancelling operand pair
     c.cnum = pick(-8, 8); if (c.cnum == 0) c.cnum = 3; c.cden = one_of<i64>({1, 2, 4, 8});
     c.xnum = pick((c.g.off) * 8, (c.g.off + total) * 8);
+    if (chance(10)) {
+      // NEARLY uniform grid inside the same domain: spacings 1/8 (or 1/4) + d_i with 0 <= d_i < 2^-j, every point exactly
+      // representable in the case's type ("equal within a tolerance" is not equal)
+      const int kmax = c.type == 1 ? 17 : 45;
+      const int k = (int)pick(12, kmax), j = (int)pick(8, k - 3);
+      const i64 den = (i64)1 << k, h = den / (chance(70) ? 8 : 4);
+      c.g.den = den; c.g.gaps.clear();
+      const int pattern = (int)pick(0, 2);
+      const i64 cnt = (i64)np - 1, where = pick(0, std::max<i64>(0, cnt - 1));
+      i64 tot = 0;
+      for (i64 i = 0; i < cnt; i++) { i64 d = (pattern == 0 ? i == where : pattern == 1 ? true : i % 2 == 0) ? pick(1, std::max<i64>(1, den >> j)) : 0; c.g.gaps.push_back(h + d); tot += h + d; }
+      c.g.off = chance(40) ? -8 * den : chance(50) ? 8 * den - tot : -tot / 2;
+      c.xnum = (c.g.off / (den / 64)) + pick(0, std::max<i64>(1, tot / (den / 64)));
+    }
     return c;
   });
   vf::add_sub<FloatC>("float-ops", 6000, gen, check_float);
